@@ -1553,6 +1553,10 @@ def _eq(a, b):
 
 def lexical_ok(v, s, kw):
     """is s a valid XSD lexical form of the datatype matching python value v?"""
+    if isinstance(v, XmlDuration):
+        return bool(RX["XmlDuration"].match(s))
+    if isinstance(v, XmlPeriod):
+        return bool(RX["XmlPeriod"].match(s))
     if isinstance(v, bool):
         return bool(RX["bool"].match(s))
     if isinstance(v, int):
@@ -1577,6 +1581,38 @@ def qname_parts(text):
         u, _, l = text[1:].partition("}")
         return (u or None), l
     return None, text
+
+
+def dt_directives(f):
+    out = []
+    i = 0
+    while i < len(f):
+        if f[i] == "%" and i + 1 < len(f):
+            out.append(f[i + 1])
+            i += 2
+        else:
+            i += 1
+    return [d for d in out if d != "%"]
+
+
+def dt_format_covers(val, f):
+    """a format under which the value can be expected to round-trip: numeric directives only,
+    each component of the value mentioned exactly once"""
+    if not isinstance(f, str) or not fmt_ser_supported(f) or f.endswith("%") and not f.endswith("%%"):
+        return False
+    ds = dt_directives(f)
+    if len(set(ds)) != len(ds):
+        return False
+    need = set()
+    if isinstance(val, _dt.date):
+        need |= {"Y", "m", "d"}
+    if isinstance(val, (_dt.time, _dt.datetime)):
+        need |= {"H", "M", "S"}
+        if val.microsecond:
+            need.add("f")
+    if isinstance(val, _dt.time) and not isinstance(val, _dt.datetime) and set(ds) & {"Y", "m", "d"}:
+        return False
+    return need <= set(ds)
 
 
 def oracle_roundtrip(a):
@@ -1615,6 +1651,11 @@ def oracle_roundtrip(a):
         return None
     if isinstance(val, (XmlDate, XmlTime, XmlDateTime)):
         return None  # C06
+    if isinstance(val, (XmlDuration, XmlPeriod)) and not RX[type(val).__name__].match(str(val)):
+        return None  # built from a non-XSD spelling that the class tolerates (C06's leniency): str() echoes it
+    if isinstance(val, (_dt.date, _dt.time)):
+        if member is not None or not dt_format_covers(val, kw.get("format")):
+            return None  # the format must mention every component of the value exactly once
     try:
         s = converter.serialize(v, **kwargs)
     except Exception as e:  # noqa: BLE001
@@ -1797,6 +1838,8 @@ def covered_roundtrip(a, msg):
     v = a["v"]
     kw = a["kw"]
     inner = v["v"] if v["t"] == "member" else v
+    if inner["t"] in ("pydate", "pydatetime") and inner["v"][0] < 1000 and "Y" in dt_directives(kw.get("format") or ""):
+        return "C05-strftime-year"
     if inner["t"] == "qname":
         ns, local = qname_parts(inner["v"])
         if _is_marked_name(local):
@@ -1914,7 +1957,18 @@ def f_ncname_marks():
     return False, "accepted"
 
 
+def f_strftime_year():
+    d = _dt.date(999, 1, 2)
+    s = converter.serialize(d, format="%Y-%m-%d")
+    try:
+        back = converter.deserialize(s, [_dt.date], format="%Y-%m-%d")
+    except ConverterError:
+        return True, f"serialize(date(999, 1, 2), format='%Y-%m-%d') = {s!r}, which deserialize rejects with the same format"
+    return back != d, f"{s!r} -> {back!r}"
+
+
 FINDINGS = {
+    "C05-strftime-year": f_strftime_year,
     "C05-qname-default-ns": f_default_ns,
     "C05-ncname-unicode": f_ncname_marks,
 }
